@@ -4,6 +4,9 @@ namespace MaddyVerif.Expect.FuncSkelC15
 /-- (declaration, fingerprint of its normalised text): comments, layout, local names and log/trace statements do not count -/
 def funcs : List (String × String) := [
   ("internal/authz/lookup.go:AuthorizeEmailUse", "dd81c30de13bb7c2"),
+  ("internal/authz/normalization.go:NormalizeAuto", "469169839aed8fca"),
+  ("internal/authz/normalization.go:NormalizeNoop", "578c5e58653bd003"),
+  ("internal/authz/normalization.go:type NormalizeFunc", "4472b469f6958871"),
   ("internal/check/authorize_sender/authorize_sender.go:Check.CheckStateForMsg", "7031880a6870106b"),
   ("internal/check/authorize_sender/authorize_sender.go:Check.Init", "ea5f4371aefb363d"),
   ("internal/check/authorize_sender/authorize_sender.go:Check.InstanceName", "13d0cff2584d7cf7"),
